@@ -11,10 +11,12 @@ Proved here, for ALL inputs satisfying the stated hypotheses:
   point_in_polygon_kernel_inside / _separated_outside /
   point_in_convex_polygon_outside / _spec                         point_in_polygon (winding test), convex case
   point_in_polygon_eq_signed_crossings / _crossing_odd /
-  point_in_polygon_crossing_parity_spec                           any polygon, generic position: winding sum =
+  point_in_polygon_crossing_parity_spec, pip_proved_answer_sound  any polygon, generic position: winding sum =
                                                                   signed crossing number of the upward ray; = even-odd
                                                                   rule when the vertical line meets <= 2 edges
   collinear_spec, planar_exact, planar_spec                       integer inputs: coded True ⇔ exact zero
+  collinear_proved_answer_sound / planar_proved_answer_sound      the same with the hypotheses as decidable input
+                                                                  conditions evaluated by the driver per case
   half_space_spec                                                 the counting loop = ∀ planes
   sort_point_pairs_chain                                          whatever is returned is a valid chain
   sort_point_pairs_cycle_complete / _chain_complete               simple cycles / simple open chains are never rejected
@@ -222,6 +224,47 @@ code's half-plane tie-break `vertexSgn` (sign of y when x = 0) plays the role of
 perturbation.  Both are covered by the correspondence check and the exact oracle only.
 -/
 
+/-- Soundness of the driver's theorem-backed answer: whenever `pipProvedAnswer` (a decidable
+    function of the input, evaluated by the driver on every case) returns `some b`, the coded
+    `point_in_polygon` returns `b`, for every `default`.  The hypotheses of the point_in_polygon
+    theorems above thereby become input conditions that are checked, not assumed. -/
+theorem pip_proved_answer_sound (poly : List P2) (p : P2) (d b : Bool)
+    (h : pipProvedAnswer poly p = some b) : pointInPolygon poly p d = b := by
+  unfold pipProvedAnswer at h
+  split at h
+  · cases h
+  · rename_i hne
+    have hne' : poly ≠ [] := by intro e; apply hne; simp [e]
+    split at h
+    · rename_i hk
+      cases h
+      simp only [Bool.or_eq_true, pipKernel, decide_eq_true_eq] at hk
+      rcases hk with hk | hk
+      · exact point_in_polygon_kernel_inside poly p d hne' 1 (Or.inl rfl) hk
+      · exact point_in_polygon_kernel_inside poly p d hne' (-1) (Or.inr rfl) hk
+    · split at h
+      · rename_i hg
+        cases h
+        simp only [Bool.and_eq_true, pipGeneric, decide_eq_true_eq] at hg
+        exact point_in_polygon_crossing_parity_spec poly p d hg.1.1 hg.1.2 hg.2
+      · split at h
+        · rename_i hg
+          cases h
+          simp only [Bool.and_eq_true, pipGeneric, evenOddUp, decide_eq_true_eq] at hg
+          exact point_in_polygon_crossing_odd poly p d hg.1.1 hg.1.2 hg.2
+        · split at h
+          · rename_i hg
+            cases h
+            simp only [Bool.and_eq_true, isConvexCcw, decide_eq_true_eq, List.any_eq_true] at hg
+            obtain ⟨hconv, e, he, hneg⟩ := hg
+            exact point_in_convex_polygon_outside poly p d hconv e he hneg
+          · cases h
+
+example : pipProvedAnswer [(0, 0), (2, 0), (2, 1), (1, 1), (1, 2), (0, 2)] (1 / 2, 1) = some true ∧
+    pipProvedAnswer [(0, 0), (2, 0), (2, 1), (1, 1), (1, 2), (0, 2)] (3 / 2, 3 / 2) = some false ∧
+    pipProvedAnswer [(0, 0), (2, 0), (2, 1), (1, 1), (1, 2), (0, 2)] (1, 3 / 2) = none := by decide +kernel
+
+
 /-! ### points_are_collinear -/
 
 /-- Integer points, tolerance below the reciprocal of the largest distance (`tol²·dist² < 1`, so that a
@@ -365,6 +408,49 @@ example : planarWithNormal (0, 0, 2) [(0, 0, 1), (3, 1, 1), (-2, 5, 1), (7, 7, 1
   decide +kernel
 
 example : (1 / 100000 : Rat) * (1 / 100000) * ((4 : Rat) * 4) * nsq3 (0, 0, 2) < 1 := by decide +kernel
+
+/-! ### collinear / planar: hypotheses as checked input conditions -/
+
+/-- `collinear_spec` with its hypotheses as a decidable input condition evaluated by the driver:
+    whenever `collinearProvedAnswer` returns `some b`, the coded `points_are_collinear` returns `b`. -/
+theorem collinear_proved_answer_sound (pts : List P3) (tol : Rat) (b : Bool)
+    (h : collinearProvedAnswer pts tol = some b) : pointsAreCollinear pts tol = b := by
+  cases pts with
+  | nil => simp [collinearProvedAnswer] at h
+  | cons p0 rest =>
+    simp only [collinearProvedAnswer] at h
+    split at h
+    · rename_i hc
+      simp only [Bool.and_eq_true, List.all_eq_true, decide_eq_true_eq] at hc
+      have hspec := collinear_spec p0 rest tol (fun p hp => isInt3B_sound (hc.1.1 p hp)) hc.1.2 hc.2
+      cases h
+      rw [Bool.eq_iff_iff, hspec]
+      simp
+    · cases h
+
+/-- `planar_spec` with its hypotheses as a decidable input condition evaluated by the driver. -/
+theorem planar_proved_answer_sound (N : P3) (pts : List P3) (tol : Rat) (b : Bool)
+    (h : planarProvedAnswer N pts tol = some b) : planarWithNormal N pts tol = b := by
+  cases pts with
+  | nil => simp [planarProvedAnswer] at h
+  | cons p0 rest =>
+    simp only [planarProvedAnswer] at h
+    split at h
+    · rename_i hc
+      simp only [Bool.and_eq_true, List.all_eq_true, decide_eq_true_eq] at hc
+      have hspec := planar_spec N p0 rest tol (isInt3B_sound hc.1.1.1.1) hc.1.1.1.2
+        (fun p hp => isInt3B_sound (hc.1.1.2 p hp)) hc.1.2 hc.2
+      cases h
+      rw [Bool.eq_iff_iff, hspec]
+      simp
+    · cases h
+
+example : collinearProvedAnswer [(0, 0, 0), (1, 2, 3), (3, 6, 9), (-2, -4, -5)] (1 / 100000) = some false ∧
+    collinearProvedAnswer [(0, 0, 0), (1, 2, 3), (3, 6, 9)] (1 / 100000) = some true ∧
+    collinearProvedAnswer [(0, 0, 0), (1 / 2, 2, 3), (3, 6, 9)] (1 / 100000) = none := by decide +kernel
+example : planarProvedAnswer (0, 0, 2) [(0, 0, 1), (3, 1, 1), (-2, 5, 2), (7, 7, 1)] (1 / 100000) = some false := by
+  decide +kernel
+
 
 /-! ### point_inside_half_space_intersection -/
 
